@@ -24,7 +24,7 @@ impl Adapter for RetryAd {
         let bo = *rng.pick(&["fixed", "exp", "exp", "rand"]);
         let aimd = rng.pct(30);
         let bmax = 2 + rng.below(3) as i64;
-        json!({"hm": rng.below(3), "max": rng.below(5), "perReq": if rng.pct(30) { 1 } else { 0 }, "pred": *rng.pick(&["all", "noe2"]), "bo": bo,
+        json!({"hm": rng.below(4), "max": rng.below(5), "perReq": if rng.pct(30) { 1 } else { 0 }, "pred": *rng.pick(&["all", "noe2"]), "bo": bo,
                "b0": if bo == "rand" { 2 + 2 * rng.below(2) } else { 1 + rng.below(3) }, "cap": 4 + rng.below(5),
                "budget": if aimd { bmax } else { *rng.pick(&[-1i64, -1, 0, 1, 2, 3]) }, "bmax": if aimd { bmax } else { 3 },
                "btype": if aimd { "aimd" } else { "tb" }, "bmin": 1, "cost": 1 + rng.below(2), "amount": 1 + rng.below(2), "fnum": *rng.pick(&[0u64, 2, 3, 4])})
@@ -68,9 +68,7 @@ impl Adapter for RetryAd {
     }
     fn mk(&mut self, req: &Req) -> CallFut {
         let f = self.svc.as_mut().unwrap().with(|s| {
-            let w = futures::task::noop_waker();
-            let mut cx = std::task::Context::from_waker(&w);
-            let _ = s.poll_ready(&mut cx);
+            ready_unless_parked(s);
             s.call(req.clone())
         });
         Box::pin(async move {
